@@ -36,6 +36,9 @@ func lastInt(callee string) int64 { return 0 }
 // lastBool(callee): boolean result of the most recent call of that callee in the function being verified (ghost).
 func lastBool(callee string) bool { return true }
 
+// called(callee): that function has been called since the function being verified was entered, on this path (ghost).
+func called(callee string) bool { return true }
+
 // lastNil(callee): the pointer returned by the most recent call of that callee in the function being verified was nil (ghost).
 func lastNil(callee string) bool { return true }
 
